@@ -206,20 +206,35 @@ func checkC14(r *core.Run) {
 	}
 	var prefixes []string
 	{
-		var rec func(p string, d int)
-		rec = func(p string, d int) {
-			prefixes = append(prefixes, p)
-			if d == 0 {
-				return
+		// breadth-first: all prefixes of fewer symbols come first
+		level := []string{""}
+		for d := 0; d <= ln; d++ {
+			prefixes = append(prefixes, level...)
+			var next []string
+			if d < ln {
+				for _, p := range level {
+					for _, a := range alpha {
+						next = append(next, p+a)
+					}
+				}
 			}
-			for _, a := range alpha {
-				rec(p+a, d-1)
-			}
+			level = next
 		}
-		rec("", ln)
+	}
+	nShort := len(prefixes)
+	if r.Thorough() {
+		// the prefixes of the largest length (the last |alpha|^ln ones) get the reduced data set
+		n := 1
+		for i := 0; i < ln; i++ {
+			n *= len(alpha)
+		}
+		nShort = len(prefixes) - n
 	}
 	// realistic longer prefixes
-	prefixes = append(prefixes, "https://o/a/", "https://o/a/.", "https://o/a/%2e", "/p/", "/p/.", "//o/p/", "/p?q=", "/p?q=a&r=", "/p#f", "https://o/p?q=", "about:blank#", "/a/b/..", "/p/&amp;", "/p?a&amp;b=", "https://o/.&#37;2", "/p/&#x25;2", "/p/%2", "/p/%", "https://o/a/&#46;")
+	realistic := []string{"https://o/a/", "https://o/a/.", "https://o/a/%2e", "/p/", "/p/.", "//o/p/", "/p?q=", "/p?q=a&r=", "/p#f", "https://o/p?q=", "about:blank#", "/a/b/..", "/p/&amp;", "/p?a&amp;b=", "https://o/.&#37;2", "/p/&#x25;2", "/p/%2", "/p/%", "https://o/a/&#46;",
+		"&#x;/", "/&#x;", "&#;/", "&#2#", "&#9/", "/a&#9", "java&#9script:", "&#x9/", "/&#1"}
+	nReal := len(realistic)
+	prefixes = append(prefixes, realistic...)
 	var data []string
 	for b := 0; b < 256; b++ {
 		data = append(data, string([]byte{byte(b)}))
@@ -277,7 +292,12 @@ func checkC14(r *core.Run) {
 		}
 		atomic.AddInt64(&accepted, 1)
 		ds := data
-		if j.pi < len(prefixes)-19 && !r.Thorough() {
+		switch {
+		case j.pi >= len(prefixes)-nReal:
+			// realistic prefixes: all data layers
+		case j.pi >= nShort:
+			ds = append(append([]string{}, data[:256]...), data[256+len(sp)*len(sp):256+len(sp)*len(sp)+17]...) // longest generated prefixes: single bytes + curated
+		case !r.Thorough():
 			ds = data[:256+len(sp)*len(sp)+17] // percent-triplet layer only on the realistic prefixes in quick mode
 		}
 		for _, d := range ds {
